@@ -14,7 +14,7 @@ ASSUMPTIONS = ['credits are arbitrary reals in [0,1]; messages range over a pale
 BOUNDS = {'quick': 'k<=3 alternatives (table-driven, credits in [0,1]), all 3! listing orders; StringGrader with 3 alternatives incl. a tuple-valued expect; SingleListGrader as subgrader user',
           'thorough': 'k<=4 alternatives with all 4! orders (path budget), k=5 without reorderings'}
 OUTSIDE = ['more alternatives than the bound', 'IEEE rounding']
-DEADLINE = {'quick': 120, 'thorough': 1800}
+DEADLINE = {'quick': 600, 'thorough': 1800}
 FUNCS = ['ItemGrader.check', 'ItemGrader.validate_single_answer/schema_answers', 'StringGrader.check_response', 'AbstractGrader.__call__',
          'AbstractGrader.grade_decimal_to_ok']
 STUBS = ['TableGrader (author-defined ItemGrader returning table credit and palette message)']
